@@ -750,6 +750,27 @@ func wgClasses(res *wgResult, m *gen.Model) []string {
 	if twins {
 		cls = append(cls, "model:same-kind-sibling-operators")
 	}
+	positional := false
+	for _, t := range m.Types {
+		byName := map[string]*gen.Rewrite{}
+		for _, r := range t.Rels {
+			byName[r.Name] = r.Rw
+		}
+		for _, r := range t.Rels {
+			i := strings.LastIndex(r.Name, ".")
+			if i <= 0 || i != len(r.Name)-2 || r.Name[i+1] < '0' || r.Name[i+1] > '9' || !r.Rw.IsOp() {
+				continue
+			}
+			if base := byName[r.Name[:i]]; base != nil && base.IsOp() {
+				if pos := int(r.Name[i+1] - '0'); pos < len(base.Kids) && base.Kids[pos].IsOp() && base.Kids[pos].Kind == r.Rw.Kind {
+					positional = true
+				}
+			}
+		}
+	}
+	if positional {
+		cls = append(cls, "names:relation-named-like-a-nested-operator-position")
+	}
 	if wild > 0 {
 		cls = append(cls, "model:has-wildcard")
 	}
@@ -887,13 +908,69 @@ var wgNestLeaves = []string{"u", "e", "m", "w"}
 const wgTwinCount = 3 * 3 * 4 * 4 * 4 * 4                   // 2304
 const wgCousinCount = 3 * 3 * 3 * 3 * 3 * 3 * 3 * 3 * 3 * 3 // 59049 (3^4 operator choices x 3^6 leaves)
 
-func wgNestedCount() int { return wgTwinCount + wgCousinCount }
+const wgMixedCount = 2 * 3 * 3 * 729 // 13122: x = OP0(OP1(OPk(l1,l2), l3), l4, OPk(l5,l6)), OP0 with three operands
+const wgObserverCount = 36 * 36 * 4  // 5184: a, b unions of three leaves that may form cycles; c observes a through a doubled operand
+
+func wgNestedCount() int { return wgTwinCount + wgCousinCount + wgMixedCount + wgObserverCount }
+
+// wgObserverModel: doc with p: [doc]; a = union(x1, x2, x3) with x1 in {[user], b from p, b, a from p} and x2, x3 in
+// {b from p, b, a from p}; b symmetrically; c in {a or a, a and a, [user] or a or a, (a or a) but not b}. Cycles of every
+// kind between a and b (tuple cycles, rewrite-only cycles, mixed) observed through parallel edges from outside the cycle.
+func wgObserverModel(idx int) *gen.Model {
+	d := func(n int) int { v := idx % n; idx /= n; return v }
+	leaf := func(code int, self, other string) *gen.Rewrite {
+		switch code {
+		case 0:
+			return &gen.Rewrite{Kind: gen.This}
+		case 1:
+			return &gen.Rewrite{Kind: gen.TTU, Rel: other, Tupleset: "p"}
+		case 2:
+			return &gen.Rewrite{Kind: gen.Computed, Rel: other}
+		}
+		return &gen.Rewrite{Kind: gen.TTU, Rel: self, Tupleset: "p"}
+	}
+	def := func(self, other string) gen.Relation {
+		x1, x2, x3 := d(4), 1+d(3), 1+d(3)
+		r := gen.Relation{Name: self, Rw: &gen.Rewrite{Kind: gen.Union, Kids: []*gen.Rewrite{leaf(x1, self, other), leaf(x2, self, other), leaf(x3, self, other)}}}
+		if x1 == 0 {
+			r.Restr = []gen.Restriction{{Type: "user"}}
+		}
+		return r
+	}
+	a, b := def("a", "b"), def("b", "a")
+	ca := func() *gen.Rewrite { return &gen.Rewrite{Kind: gen.Computed, Rel: "a"} }
+	var c gen.Relation
+	switch d(4) {
+	case 0:
+		c = gen.Relation{Name: "c", Rw: &gen.Rewrite{Kind: gen.Union, Kids: []*gen.Rewrite{ca(), ca()}}}
+	case 1:
+		c = gen.Relation{Name: "c", Rw: &gen.Rewrite{Kind: gen.Intersection, Kids: []*gen.Rewrite{ca(), ca()}}}
+	case 2:
+		c = gen.Relation{Name: "c", Rw: &gen.Rewrite{Kind: gen.Union, Kids: []*gen.Rewrite{{Kind: gen.This}, ca(), ca()}}, Restr: []gen.Restriction{{Type: "user"}}}
+	default:
+		c = gen.Relation{Name: "c", Rw: &gen.Rewrite{Kind: gen.Difference, Kids: []*gen.Rewrite{{Kind: gen.Union, Kids: []*gen.Rewrite{ca(), ca()}}, {Kind: gen.Computed, Rel: "b"}}}}
+	}
+	return &gen.Model{Schema: "1.1", Types: []gen.TypeDef{{Name: "user"}, {Name: "doc", Rels: []gen.Relation{
+		{Name: "p", Rw: &gen.Rewrite{Kind: gen.This}, Restr: []gen.Restriction{{Type: "doc"}}}, a, b, c}}}}
+}
 
 func wgNestedModel(idx int) *gen.Model {
 	leaf := func(name string) *gen.Rewrite { return &gen.Rewrite{Kind: gen.Computed, Rel: name} }
 	op := func(kind string, kids ...*gen.Rewrite) *gen.Rewrite { return &gen.Rewrite{Kind: kind, Kids: kids} }
+	if idx >= wgTwinCount+wgCousinCount+wgMixedCount {
+		return wgObserverModel(idx - wgTwinCount - wgCousinCount - wgMixedCount)
+	}
 	var x *gen.Rewrite
-	if idx < wgTwinCount {
+	if idx >= wgTwinCount+wgCousinCount {
+		idx -= wgTwinCount + wgCousinCount
+		d := func(n int) int { v := idx % n; idx /= n; return v }
+		op0, op1, opk := wgNestOps[d(2)], wgNestOps[d(3)], wgNestOps[d(3)]
+		var l []string
+		for i := 0; i < 6; i++ {
+			l = append(l, wgNestLeaves[d(3)])
+		}
+		x = op(op0, op(op1, op(opk, leaf(l[0]), leaf(l[1])), leaf(l[2])), leaf(l[3]), op(opk, leaf(l[4]), leaf(l[5])))
+	} else if idx < wgTwinCount {
 		d := func(n int) int { v := idx % n; idx /= n; return v }
 		op0, op1 := wgNestOps[d(3)], wgNestOps[d(3)]
 		l := []string{wgNestLeaves[d(4)], wgNestLeaves[d(4)], wgNestLeaves[d(4)], wgNestLeaves[d(4)]}
